@@ -591,3 +591,112 @@ Example C11_revert_keccak_nonvacuous :
   end = true /\
   ParseError keccak256 DecModel.DecodeABIData [] (firstn 69 d) = Ok None.
 Proof. vm_compute. auto. Qed.
+
+(* ================================================================================================
+   Wave 6: guards of the stability clause removed (proofs: Abi/DecTotalProofs11.v)
+   ================================================================================================ *)
+From FFS Require Import Abi.DecTotalProofs11.
+
+(* The decoder reads a bool as the low byte of its word, so a decoded bool leaf holds 0..255, and the
+   encoder treats bool as uint8: to both, a bool IS a uint8.  [rt c] is the component tree c with
+   every bool leaf turned into the uint8 leaf with the same fields, [rtv x] the value tree x with
+   its component labels re-typed the same way.  The decoder commutes with the re-typing (same
+   result class, same tree up to the labels) and the encoder does not see it. *)
+Theorem C11_bool_is_uint8 :
+  (forall (c : tcomp) (b : bytes) (off : Z),
+     DecodeABIData (rt c) b off = bind (DecodeABIData c b off) (fun x => Ok (rtv x))) /\
+  (forall x : cval, EncodeABIData (rtv x) = EncodeABIData x) /\
+  (forall x : cval, val_of (rtv x) = val_of x /\ bools_ok (rtv x) = true) /\
+  (forall c : tcomp, tc_wf c = true -> tc_wf (rt c) = true).
+Proof.
+  exact (conj DecodeABIData_rt (conj EncodeABIData_rt
+           (conj (fun x => conj (val_of_rt x) (bools_ok_rt x)) tc_wf_rt))).
+Qed.
+Print Assumptions C11_bool_is_uint8.
+
+(* C11_stable without the guard "bool leaves hold 0 or 1": a tree with a bool leaf decoded from a
+   word whose low byte is 2..255 is re-encodable, and decoding its re-encoding yields the same
+   tree.  (The remaining guards are the ones of C11_stable.) *)
+Theorem C11_stable_any_bool :
+  forall (c : tcomp) (bs : bytes) (off : Z) (x : cval) (e : bytes),
+    tc_wf c = true -> tc_no_fixed_point c = true -> tc_no_zero_len c = true ->
+    DecodeABIData c bs off = Ok x -> EncodeABIData x = Ok e ->
+    weight_ok (val_of x) -> zlen e < 2 ^ 32 -> list_counts_ok (val_of x) = true ->
+    DecodeABIData c e 0 = Ok x.
+Proof. exact stable_any_bool. Qed.
+Print Assumptions C11_stable_any_bool.
+
+(* The guard "every sequence in the tree is shorter than 2^32" follows from the decoding itself
+   (counts are read from words the decoder refuses above 32 bits, declared lengths are 32-bit
+   numbers); left is a condition on the type alone: every tuple has fewer than 2^32 members. *)
+Theorem C11_decoded_counts :
+  forall (c : tcomp) (bs : bytes) (off : Z) (x : cval),
+    tc_wf c = true -> tc_arity_ok c = true -> DecodeABIData c bs off = Ok x ->
+    list_counts_ok (val_of x) = true.
+Proof. exact DecodeABIData_counts. Qed.
+Print Assumptions C11_decoded_counts.
+
+(* Stability in its strongest form here: no guard on bool leaves, no guard on the counts inside the
+   tree, and the re-encoding may sit anywhere inside a longer byte string (bytes before it, e.g. a
+   selector, and bytes behind it), decoded at its own offset.  C11_stable is the case
+   pre = post = [] with two more hypotheses.  Remaining guards: on the type (valid, no fixed-point
+   leaf, no zero-length fixed array, tuples of fewer than 2^32 members), C02's size guard on the
+   tree (fewer than 2^248 nodes + bytes) and the length of the re-encoding (below 2^32: the decoder
+   refuses larger offsets). *)
+Theorem C11_stable_embedded :
+  forall (c : tcomp) (bs : bytes) (off : Z) (x : cval) (e pre post : bytes),
+    tc_wf c = true -> tc_no_fixed_point c = true -> tc_no_zero_len c = true -> tc_arity_ok c = true ->
+    DecodeABIData c bs off = Ok x -> EncodeABIData x = Ok e ->
+    weight_ok (val_of x) -> zlen e < 2 ^ 32 ->
+    DecodeABIData c (pre ++ e ++ post) (zlen pre) = Ok x.
+Proof. exact stable_embedded. Qed.
+Print Assumptions C11_stable_embedded.
+
+(* ... hence for call data: a tree decoded by DecodeCallData (selector id), re-encoded and prefixed
+   with the selector again (what EncodeCallData produces), decodes to the same tree *)
+Theorem C11_stable_calldata :
+  forall (id : bytes) (c : tcomp) (bs : bytes) (x : cval) (e : bytes),
+    tc_wf c = true -> tc_no_fixed_point c = true -> tc_no_zero_len c = true -> tc_arity_ok c = true ->
+    DecModel.DecodeCallData id c bs = Ok x -> EncodeABIData x = Ok e ->
+    weight_ok (val_of x) -> zlen e < 2 ^ 32 ->
+    DecModel.DecodeCallData id c (id ++ e) = Ok x.
+Proof. exact stable_calldata. Qed.
+Print Assumptions C11_stable_calldata.
+
+(* The typing conjunct of C11_decoded_tree_shape without the guard on bool leaves: read with every
+   bool as uint8 (the type of [rt c]), the value of a decoded tree is well typed in the sense of the
+   specification whenever the encoder accepts the tree. *)
+Theorem C11_decoded_well_typed_bool_as_uint8 :
+  forall (c : tcomp) (bs : bytes) (off : Z) (x : cval),
+    tc_wf c = true -> tc_no_fixed_point c = true -> DecodeABIData c bs off = Ok x ->
+    (exists r, encodeABIData x = Ok r) -> well_typed (ty_of (rt c)) (val_of x) = true.
+Proof. exact decoded_well_typed_bool_as_uint8. Qed.
+Print Assumptions C11_decoded_well_typed_bool_as_uint8.
+
+(* non-vacuity: (bool, bool[], uint8) decoded from words with dirty bool bytes (all-ones word -> 255,
+   7 -> 7): the old guard bools_ok FAILS on the decoded tree, every hypothesis of C11_stable_embedded
+   and C11_stable_calldata is met, the tree re-encodes, and the re-encoding decodes to the same tree -
+   alone, and behind a selector with trailing bytes; the re-typed type is (uint8, uint8[], uint8) *)
+Example C11_stable_any_bool_nonvacuous :
+  let c := tc_of_ty (TTuple [TBool; TDynArr TBool; TUInt 8]) in
+  let bs := repeat xff 32 ++ w 96 ++ w 9 ++ w 1 ++ w 7 in
+  let id := [x12; x34; x56; x78] in
+  tc_wf c = true /\ tc_no_fixed_point c = true /\ tc_no_zero_len c = true /\ tc_arity_ok c = true /\
+  ty_of (rt c) = TTuple [TUInt 8; TDynArr (TUInt 8); TUInt 8] /\
+  match DecodeABIData c bs 0 with
+  | Ok x =>
+      weight_ok (val_of x) /\
+      match EncodeABIData x with
+      | Ok e =>
+          negb (bools_ok x) && (Z.of_nat (length e) <? 2 ^ 32)
+          && match DecodeABIData c e 0 with Ok x' => cval_eqb x x' | _ => false end
+          && match DecodeABIData c (id ++ e ++ [xaa; xbb]) 4 with Ok x' => cval_eqb x x' | _ => false end
+          && match DecModel.DecodeCallData id c (id ++ bs), DecModel.DecodeCallData id c (id ++ e) with
+             | Ok x1, Ok x2 => cval_eqb x x1 && cval_eqb x x2
+             | _, _ => false
+             end = true
+      | _ => False
+      end
+  | _ => False
+  end.
+Proof. vm_compute. repeat split; reflexivity. Qed.
